@@ -113,7 +113,7 @@ def gen_case(ka, kb, inst, seed, tier):
         rad = rng.uniform(0, 2.2)
         ctr = (rad * math.cos(ang), rad * math.sin(ang), rng.uniform(-0.5, 0.5))
     dB = ro.gen(kb, rng, z=zB, ctr=ctr, scale=scale)
-    return {"A": dA, "B": dB, "relation": relation, "pseed": int(rng.integers(0, 2**31)), "nprobe": 90 if tier == "quick" else 140}
+    return {"A": dA, "B": dB, "relation": relation, "pseed": int(rng.integers(0, 2**31)), "nprobe": 64 if tier == "quick" else 140}
 
 
 def make_probes(A, B, rng, n):
@@ -183,6 +183,12 @@ class Mon:
     def skip(self, k, n=1):
         self.S[k] = self.S.get(k, 0) + n
 
+    def alt_for(self, X):
+        for key, which, alt in getattr(self, "alts", ()):
+            if alt.params is X.params:
+                return key, alt
+        return None
+
     def report(self, check, what, info=None):
         info = info or {}
         key = classify(check, info, self.case)
@@ -207,16 +213,36 @@ def classify(check, info, case):
         return f"polygon.{OPNAME.get(op, op)}-result-rebuilt-at-z0"
     if check in ("unary.distance", "result.distance") and info.get("circ_z0"):
         return "circular.distanceTo-tests-z-equals-0"
-    if info.get("alt_key"):
-        return info["alt_key"]
     if check == "project.nearest" and info.get("first_hit"):
         return "mesh.projectVector-norm-over-all-hits"
     if check == "unary.contains" and info.get("cls") == "PolylineRegion" and info.get("obs") is False and info.get("p", [0, 0, 1])[2] == 0:
-        return "polyline.containsPoint-exact-predicate-misses-own-points"
+        return POLYLINE_EXACT
+    planar_nz = [d["kind"] in ("polygon", "circle", "sector", "rect") and (d["params"].get("z", None) if d["kind"] == "polygon" else d["params"]["c"][2]) != 0 for d in (case["A"], case["B"])]
+    if "polyline" in (ka, kb) and any(planar_nz) and ka != kb:
+        if check == "intersects" and info.get("obs") is True:
+            return "polygon-polyline.intersects-ignores-height"
+        if op in ("and", "sub") and rc in ("PolylineRegion", "PointSetRegion", "PolygonalRegion", "EmptyRegion") and check in ("result.contains", "result.distance", "result.aabb", "result.sample", "result.true-contains", "result.empty") and not info.get("z_lost"):
+            return f"polygon-polyline.{OPNAME[op]}-ignores-height"
+    if op == "or" and rc == "PolygonalRegion" and check.startswith("result.") and not info.get("z_lost"):
+        kinds = {ka, kb}
+        if "footprint" in kinds and kinds & {"polygon", "circle", "sector", "rect"}:
+            return "polygon.union-treats-footprint-as-flat-polygon"
+        if "polyline" in kinds and kinds & {"polygon", "circle", "sector", "rect"}:
+            return "polygon.union-drops-polyline-operand"
+    if check == "containsRegion.error" and "VoxelRegion.containsRegionInner() takes 2 positional arguments" in err:
+        return "voxel.containsRegionInner-missing-tolerance-parameter"
+    if check == "result.sample-error" and "ZeroDivisionError" in err and rc == "UnionRegion" and "polyline" in (ka, kb):
+        return "union.genericSampler-zero-containment-count-for-polyline-sample"
+    if check == "result.sample-error" and "setting an array element with a sequence" in err and "meshsurf" in (ka, kb) and info.get("label", "").startswith("[random"):
+        return "meshsurface.random-parameter-default-orientation-leaks-into-composite"
+    if info.get("alt_key"):
+        return info["alt_key"]
     if check == "op.error" and "RecursionError" in err and op == "and" and ka in ("pointset", "grid") and kb in ("pointset", "grid"):
         return "pointset.intersect-pointset-infinite-recursion"
     if check == "containsRegion.error" and "too many values to unpack" in err and ka in ("pointset", "grid") and kb in ("pointset", "grid"):
         return "pointset.containsRegionInner-kdtree-query-unpack"
+    if check in ("result.sample-error", "op.error") and "has no attribute 'circumcircle'" in err and ("pointset" in (ka, kb) or "grid" in (ka, kb)):
+        return "pointset.intersection-sampler-requires-circumcircle"
     if check == "lazy.error" and "got multiple values for argument 'orientation'" in err and "meshsurf" in (ka, kb):
         return "meshsurface.evaluateInner-orientation-passed-twice"
     if check == "containsRegion.error" and "name 'other' is not defined" in err:
@@ -249,27 +275,55 @@ def alt_models(A, B, SA, SB):
             ro.Orc.__init__(alt, X.params)
             alt.poly = SX.polygons
             alt.planar_z = X.planar_z
-            alt.eps = X.eps
+            alt.eps = 1e-7
             alt.zfree = False
             alt.kind = "sector"
             out.append((SECTOR_TRUNC, which, alt))
+        if X.kind == "polyline":
+            out.append((POLYLINE_EXACT, which, _PolylineAsImplemented(X, SX)))
     return out
 
 
-def explain_point(mon, op, A, B, p, obs):
+POLYLINE_EXACT = "polyline.containsPoint-exact-predicate-misses-own-points"
+
+
+class _PolylineAsImplemented:
+    """the polyline oracle, except that points the library's own exact predicate rejects count as non-members"""
+
+    has_dist = False
+
+    def __init__(self, X, SX):
+        self.X, self.SX, self.params = X, SX, X.params
+
+    def member(self, P):
+        from rt.regionrun import V
+
+        m = self.X.member(P).copy()
+        for i in np.where(m == 1)[0]:
+            if not self.SX.containsPoint(V(P[i])):
+                m[i] = 0
+        return m
+
+    fmember = member
+
+
+def explain_point(mon, op, A, B, p, obs, contains_call=False):
     """key of the first alternative model under which the observed answer at p would be right"""
     for key, which, alt in getattr(mon, "alts", ()):
+        if key == POLYLINE_EXACT and not contains_call:
+            continue  # only explains answers of containsPoint itself
         A2, B2 = (alt, B) if which == "A" else (A, alt)
         P1 = np.asarray(p, float)[None]
         if op is None:
             e = alt.member(P1)
         else:
             e = _comb(op, A2.member(P1), B2.member(P1))
-        if e[0] != -1 and bool(e[0]) == bool(obs):
+        # (an undetermined value of the *other* operand can complete either way)
+        if e[0] == -1 or bool(e[0]) == bool(obs):
             return key
         if op is not None:
             e = _comb(op, A2.fmember(P1), B2.fmember(P1))
-            if e[0] != -1 and bool(e[0]) == bool(obs):
+            if e[0] == -1 or bool(e[0]) == bool(obs):
                 return key
     return None
 
@@ -334,7 +388,7 @@ def check_unary(mon, X, SX, P, role):
             mon.skip("probe_near_boundary")
         else:
             mon.bump("membership_compared")
-            mon.report("unary.contains", f"{cls}.containsPoint{fmt(p)} = {obs}, oracle says {'member' if e3 else 'not a member'} ({role}={X.describe()['params'] if len(str(X.params)) < 300 else X.kind})", {"cls": cls, "obs": obs, "p": [float(x) for x in p]})
+            mon.report("unary.contains", f"{cls}.containsPoint{fmt(p)} = {obs}, oracle says {'member' if e3 else 'not a member'} ({role}={X.describe()['params'] if len(str(X.params)) < 300 else X.kind})", {"cls": cls, "obs": obs, "p": [float(x) for x in p], "alt_key": explain_point(mon, None, X, None, p, obs, True) if mon.alt_for(X) else None})
         if do is None:
             continue
         k, d = outcome(SX.distanceTo, V(p))
@@ -363,11 +417,15 @@ def check_unary(mon, X, SX, P, role):
                 c, r = np.array(X.params["c"]), X.params["r"]
                 planar3d = max(0.0, float(np.linalg.norm(p - c)) - r)
                 info["circ_z0"] = bool(p[2] == 0 and c[2] != 0 and abs(d - planar3d) < 1e-9)
+            alt = mon.alt_for(X)
+            if alt is not None and abs(d - float(alt[1].dist(np.asarray(p, float)[None])[0])) <= tol_d:
+                info["alt_key"] = alt[0]
             mon.report("unary.distance", f"{cls}.distanceTo{fmt(p)} {bad}; {role}={X.params if len(str(X.params)) < 300 else X.kind}", info)
         # distance zero <=> member, as observed from the region itself (only off the documented z-leniency)
         if not (X.zfree and ef != e3):
             if obs and d > max(tol_d, 1e-6) and e3 != -1:
-                mon.report("unary.contains-vs-distance", f"{cls}.containsPoint{fmt(p)} is True but distanceTo = {d:.6g}", {"cls": cls})
+                alt = mon.alt_for(X)
+                mon.report("unary.contains-vs-distance", f"{cls}.containsPoint{fmt(p)} is True but distanceTo = {d:.6g}", {"cls": cls, "alt_key": alt[0] if alt is not None and abs(d - float(alt[1].dist(np.asarray(p, float)[None])[0])) <= tol_d else None})
     # AABB
     k, bb = outcome(lambda: SX.AABB)
     ob = X.aabb()
@@ -376,7 +434,12 @@ def check_unary(mon, X, SX, P, role):
         tol = 1e-6 if X.kind not in ("circle", "sector") else X.eps
         mon.bump("aabb_compared")
         if np.abs(lo - ob[0]).max() > tol or np.abs(hi - ob[1]).max() > tol:
-            mon.report("unary.aabb", f"{cls}.AABB = {fmt(lo)}..{fmt(hi)}, exact bounding box is {fmt(ob[0])}..{fmt(ob[1])}; params={X.params if len(str(X.params)) < 300 else X.kind}", {"cls": cls})
+            alt = mon.alt_for(X)
+            ak = None
+            if alt is not None:
+                ab = alt[1].aabb()
+                ak = alt[0] if np.abs(lo - ab[0]).max() <= tol and np.abs(hi - ab[1]).max() <= tol else None
+            mon.report("unary.aabb", f"{cls}.AABB = {fmt(lo)}..{fmt(hi)}, exact bounding box is {fmt(ob[0])}..{fmt(ob[1])}; params={X.params if len(str(X.params)) < 300 else X.kind}", {"cls": cls, "alt_key": ak})
     elif k == "error":
         mon.report("unary.aabb-error", f"{cls}.AABB raised {bb}", {"cls": cls, "error": bb})
     else:
@@ -388,7 +451,8 @@ def check_unary(mon, X, SX, P, role):
         mon.bump("size_compared")
         rel = 1e-6 if X.kind not in ("circle", "sector") else 2e-3
         if (om == math.inf) != (sz == math.inf) or (om != math.inf and abs(sz - om) > rel * max(1.0, om)):
-            mon.report("unary.size", f"{cls}.size = {sz:.6g}, exact measure is {om:.6g}; params={X.params if len(str(X.params)) < 300 else X.kind}", {"cls": cls})
+            alt = mon.alt_for(X)
+            mon.report("unary.size", f"{cls}.size = {sz:.6g}, exact measure is {om:.6g}; params={X.params if len(str(X.params)) < 300 else X.kind}", {"cls": cls, "alt_key": alt[0] if alt is not None and abs(alt[1].poly.area - sz) < 1e-9 else None})
     elif k == "error":
         mon.report("unary.size-error", f"{cls}.size raised {sz}", {"cls": cls, "error": sz})
     k, dm = outcome(lambda: SX.dimensionality)
@@ -492,7 +556,7 @@ def check_projection(mon, X, SX, rng, n=6):
         if np.linalg.norm(got - want) > 1e-4:
             # mechanism probe: did it return the first hit in the +direction although the hit behind is nearer?
             plus = [c for c in cands if c[1] > 0]
-            first_hit = bool(plus and cands[0][1] < 0 and np.linalg.norm(got - (o + plus[0][1] * d)) < 1e-4)
+            first_hit = bool(any(np.linalg.norm(got - (o + c[1] * d)) < 1e-4 for c in cands[1:]))
             mon.report(
                 "project.nearest",
                 f"{cls}.projectVector({fmt(o)}, {fmt(d)}) = {fmt(got)} at distance {np.linalg.norm(got - o):.4g}; the nearest member along +-direction is {fmt(want)} at distance {cands[0][0]:.4g}; params={X.params if len(str(X.params)) < 400 else X.kind}",
@@ -513,12 +577,23 @@ def check_result(mon, R, op, A, B, P, mA, mB, fA, fB, dA, dB, rng, label=""):
     mon.bump(f"result_{op}_{rc}")
     exp3, expf = _comb(op, mA, mB), _comb(op, fA, fB)
     opn = OPNAME[op] + label
-    info0 = {"op": op, "rclass": rc}
+    info0 = {"op": op, "rclass": rc, "label": label}
+    if op == "sub" and B.dim < A.dim:
+        # A minus a lower-dimensional set: the removed points have measure zero in A and no region class can
+        # represent their absence -- not observable, skipped
+        nz = int((mB == 1).sum())
+        if nz:
+            mon.skip("difference_with_lower_dimensional_subtrahend_probe", nz)
+            mB = mB.copy()
+            fB = fB.copy()
+            mB[mB == 1] = -1
+            fB[fB == 1] = -1
+            exp3, expf = _comb(op, mA, mB), _comb(op, fA, fB)
     if rc == "EmptyRegion":
         hit = np.where(exp3 == 1)[0]
         if len(hit):
             p = P[hit[0]]
-            mon.report("result.empty", f"A.{opn}(B) is empty but {fmt(p)} belongs to the expected set; A={_short(A)} B={_short(B)}", info0)
+            mon.report("result.empty", f"A.{opn}(B) is empty but {fmt(p)} belongs to the expected set; A={_short(A)} B={_short(B)}", dict(info0, alt_key=explain_point(mon, op, A, B, p, False)))
         return False
     if rc == "AllRegion":
         hit = np.where(exp3 == 0)[0]
@@ -575,7 +650,7 @@ def check_result(mon, R, op, A, B, P, mA, mB, fA, fB, dA, dB, rng, label=""):
             mon.report(
                 "result.contains",
                 f"A.{opn}(B) -> {rc}.containsPoint{fmt(p)} = {obs} but point is {'in' if mA[i] == 1 else 'not in'} A and {'in' if mB[i] == 1 else 'not in'} B; A={_short(A)} B={_short(B)}",
-                dict(info0, obs=obs),
+                dict(info0, obs=obs, alt_key=explain_point(mon, op, A, B, p, obs, True)),
             )
         # full-3D membership of planar results ("could this point be produced")
         if rc == "PolygonalRegion" and e3 != -1:
@@ -583,7 +658,7 @@ def check_result(mon, R, op, A, B, P, mA, mB, fA, fB, dA, dB, rng, label=""):
             if k2 == "ok":
                 mon.bump("true_contains_compared")
                 if bool(t) != bool(e3):
-                    mon.report("result.true-contains", f"A.{opn}(B) -> {rc} (z={rz})._trueContainsPoint{fmt(p)} = {bool(t)} but point is {'in' if mA[i] == 1 else 'not in'} A and {'in' if mB[i] == 1 else 'not in'} B; A={_short(A)} B={_short(B)}", info0)
+                    mon.report("result.true-contains", f"A.{opn}(B) -> {rc} (z={rz})._trueContainsPoint{fmt(p)} = {bool(t)} but point is {'in' if mA[i] == 1 else 'not in'} A and {'in' if mB[i] == 1 else 'not in'} B; A={_short(A)} B={_short(B)}", dict(info0, alt_key=explain_point(mon, op, A, B, p, bool(t))))
         # distance bracket
         if dist_ok and e3 != -1 and dA is not None and dB is not None:
             k3, d = outcome(R.distanceTo, V(p))
@@ -607,9 +682,9 @@ def check_result(mon, R, op, A, B, P, mA, mB, fA, fB, dA, dB, rng, label=""):
                 hi = min(hi, lo)
             mon.bump("distance_compared")
             if e3 == 1 and d > tol:
-                mon.report("result.distance", f"A.{opn}(B) -> {rc}.distanceTo{fmt(p)} = {d:.6g} on a member of the expected set; A={_short(A)} B={_short(B)}", info0)
+                mon.report("result.distance", f"A.{opn}(B) -> {rc}.distanceTo{fmt(p)} = {d:.6g} on a member of the expected set; A={_short(A)} B={_short(B)}", dict(info0, **dist_probe(mon, R, rc, op, A, B, p, d, tol)))
             elif e3 == 0 and (d < lo - tol - 1e-6 * lo or d > hi + tol + 1e-6 * hi):
-                mon.report("result.distance", f"A.{opn}(B) -> {rc}.distanceTo{fmt(p)} = {d:.6g}, outside the certain bracket [{lo:.6g}, {hi:.6g}] (lower: operands' distances, upper: nearest known member); A={_short(A)} B={_short(B)}", info0)
+                mon.report("result.distance", f"A.{opn}(B) -> {rc}.distanceTo{fmt(p)} = {d:.6g}, outside the certain bracket [{lo:.6g}, {hi:.6g}] (lower: operands' distances, upper: nearest known member); A={_short(A)} B={_short(B)}", dict(info0, **dist_probe(mon, R, rc, op, A, B, p, d, tol)))
     if n_mem + n_non >= 10 and n_mem and n_non:
         mon.nontrivial = True
     # AABB soundness / tightness
@@ -621,7 +696,7 @@ def check_result(mon, R, op, A, B, P, mA, mB, fA, fB, dA, dB, rng, label=""):
         if len(members):
             out = (members < lo - tol).any(axis=1) | (members > hi + tol).any(axis=1)
             if out.any():
-                mon.report("result.aabb", f"A.{opn}(B) -> {rc}.AABB = {fmt(lo)}..{fmt(hi)} does not contain the member {fmt(members[out][0])}; A={_short(A)} B={_short(B)}", info0)
+                mon.report("result.aabb", f"A.{opn}(B) -> {rc}.AABB = {fmt(lo)}..{fmt(hi)} does not contain the member {fmt(members[out][0])}; A={_short(A)} B={_short(B)}", dict(info0, alt_key=explain_point(mon, op, A, B, members[out][0], False)))
         ba, bbb = A.aabb(), B.aabb()
         outer = None
         if op == "sub" and ba is not None:
@@ -648,7 +723,7 @@ def check_result(mon, R, op, A, B, P, mA, mB, fA, fB, dA, dB, rng, label=""):
         bad = np.where(em == 0)[0]
         if len(bad):
             p = pts[bad[0]]
-            mon.report("result.sample", f"A.{opn}(B) -> {rc} produced the sample {fmt(p)} which is not in the expected set (in A: {int(A.member(p[None])[0])}, in B: {int(B.member(p[None])[0])}); A={_short(A)} B={_short(B)}", info0)
+            mon.report("result.sample", f"A.{opn}(B) -> {rc} produced the sample {fmt(p)} which is not in the expected set (in A: {int(A.member(p[None])[0])}, in B: {int(B.member(p[None])[0])}); A={_short(A)} B={_short(B)}", dict(info0, alt_key=explain_point(mon, op, A, B, p, True)))
     # size of the result where the oracle can compute it exactly (same-plane polygons)
     k, sz = outcome(lambda: R.size)
     if k == "ok" and sz is not None and hasattr(A, "poly") and hasattr(B, "poly") and rc == "PolygonalRegion":
@@ -659,6 +734,30 @@ def check_result(mon, R, op, A, B, P, mA, mB, fA, fB, dA, dB, rng, label=""):
             if abs(g.area - sz) > 4e-3 * max(1.0, A.poly.area, B.poly.area) and not any(X.kind == "sector" and X.params["angle"] > 2.09 for X in (A, B)):
                 mon.report("result.size", f"A.{opn}(B) -> {rc}.size = {sz:.6g}, exact area {g.area:.6g}; A={_short(A)} B={_short(B)}", info0)
     return True
+
+
+def dist_probe(mon, R, rc, op, A, B, p, d, tol):
+    """mechanism probes for a wrong distanceTo of an operation result (naming only)"""
+    out = {}
+    if rc == "CircularRegion":
+        try:
+            c, r = np.array([float(x) for x in R.center]), float(R.radius)
+            out["circ_z0"] = bool(p[2] == 0 and c[2] != 0 and abs(d - max(0.0, float(np.linalg.norm(p - c)) - r)) < 1e-9)
+        except Exception:
+            pass
+    for key, which, alt in getattr(mon, "alts", ()):
+        if key == POLYLINE_EXACT:
+            continue
+        A2, B2 = (alt, B) if which == "A" else (A, alt)
+        P1 = np.asarray(p, float)[None]
+        e = _comb(op, A2.member(P1), B2.member(P1))[0]
+        if not (A2.has_dist and B2.has_dist):
+            continue
+        da, db = float(A2.dist(P1)[0]), float(B2.dist(P1)[0])
+        lo = max(da, db) if op == "and" else min(da, db) if op == "or" else da
+        if (e == 1 and d <= tol) or (e == 0 and d >= lo - tol - 1e-6 * lo and (op != "or" or d <= lo + tol + 1e-6 * lo)):
+            out["alt_key"] = key
+    return out
 
 
 def _short(X):
@@ -763,6 +862,7 @@ def check_case(case, C, S):
         return mon
     mon.bump("pairs_run")
     mon.bump(f"relation_{case['relation']}")
+    mon.alts = alt_models(A, B, SA, SB)
     P = make_probes(A, B, rng, case["nprobe"])
     mA, mB, fA, fB = A.member(P), B.member(P), A.fmember(P), B.fmember(P)
     dA = A.dist(P) if A.has_dist else None
@@ -806,7 +906,7 @@ def check_case(case, C, S):
             mon.bump("intersects_definite")
             mon.bump(f"intersects_expected_{want}")
             if bool(r) != want:
-                mon.report("intersects", f"A.intersects(B) = {bool(r)} but {why}; A={_short(A)} B={_short(B)}", {"obs": bool(r)})
+                mon.report("intersects", f"A.intersects(B) = {bool(r)} but {why}; A={_short(A)} B={_short(B)}", {"obs": bool(r), "alt_key": explain_point(mon, "and", A, B, P[both[0]], False) if want and len(both) else None})
 
     # --- containsRegion
     k, r = outcome(SA.containsRegion, SB)
@@ -863,7 +963,7 @@ def check_case(case, C, S):
                 eager = results.get(op)
                 if eager is not None and _rclass(eager) != _rclass(RS):
                     mon.bump("lazy_result_class_differs_from_eager")
-                subP = rng.permutation(len(P))[: max(25, len(P) // 4)]
+                subP = rng.permutation(len(P))[: max(18, len(P) // 6)]
                 check_result(mon, RS, op, A, B, P[subP], mA[subP], mB[subP], fA[subP], fB[subP], None if dA is None else dA[subP], None if dB is None else dB[subP], rng, label=f"[{mode}-parameter operands]")
     return mon
 
